@@ -16,7 +16,7 @@ func init() {
 	Monitors["C02"] = func(e *Env) { runRouting(e, true) }
 }
 
-const kf2Key = "KF2-optional-only-pattern-ranked-with-other-group"
+const kf2Key = "wrong-priority:optional-only-pattern-ranked-with-the-non-literal-group" // the former known finding KF2 (repaired, D16): an ordinary violation now
 
 // routeHandler is the main handler of a generated route: it records which
 // route ran and the parameters it was given.
@@ -33,6 +33,7 @@ func routeHandler(name string, vars []string) rux.HandlerFunc {
 		}
 		rec.Route = name
 		rec.Params = copyParams(c.Params)
+		rec.Ev("params-is-nil=%v", c.Params == nil)
 		rec.ParamVia = map[string]string{}
 		for _, v := range vars {
 			rec.ParamVia[v] = c.Param(v)
@@ -226,7 +227,12 @@ func routingCase(t *T, params bool) {
 					want, _ = tb.Resolve("GET", snpath, false)
 				}
 			}
-			rec, pv, panicked := Serve(router, NewReq(method, path))
+			sreq := NewReq(method, path)
+			if chance(r, 1, 3) {
+				sreq.URL.RawQuery = pick(r, []string{"ref=mail", "v=2&path=/a/b", "x=%2F..%2F", "q"}) // the query string takes no part in routing
+				t.Count("probes.with_query_string", 1)
+			}
+			rec, pv, panicked := Serve(router, sreq)
 			if panicked {
 				probeLog = append(probeLog, fmt.Sprintf("ServeHTTP %s %q", method, path))
 				t.Fail("servehttp-panic", "ServeHTTP(%s %q) panicked: %v", method, path, pv)
